@@ -5,7 +5,9 @@
    equal the specification's (Posix.v: the kernel's discretionary access control).
    Generalises the administrator-only theorems of StepEq.v; built on WalkBridge / WalkSym / DacProofs. *)
 From Avfs Require Import Base PathModel PathSpec PathProofs PathCleanProofs PathIterProofs.
+From Avfs Require Import Inv.
 From Avfs Require Import MemFS MemFile World Posix WalkBridge WalkSym WalkBudget WalkReadlink StepEq DacProofs.
+From Avfs Require Import DacGetwd.
 
 (* ---- the hypotheses of a step: no assumption on the user ------------------------------------------- *)
 Record dac_hyps (s : fsys) (sv : sview) : Prop := {
@@ -1036,6 +1038,8 @@ Definition dcovered (phl : bool) (vi : nat) (sw : sworld) (c : call) : Prop :=
         /\ (source_not_dir s sv (wo ++ [clo])
             \/ (source_is_dir s sv (wo ++ [clo]) /\ into_itself_agree s sv (wo ++ [clo]) (w ++ [cl])))
   | COpenFile vi' p flag _ => vi' = vi /\ open_covered s sv p flag
+  (* Getwd: the working-directory string is a directory walk to the parent of the working-directory node, then its name *)
+  | CGetwd vi' => vi' = vi /\ Inv_heap (f_heap s) /\ exists bs, cwd_walk s sv bs /\ length bs < SEARCH_FUEL
   | _ => False
   end.
 
@@ -1188,6 +1192,12 @@ Proof.
     + apply (impl_ro w _ _ (wstep_chtimes w vi _ Hv p)). exact I.
     + reflexivity.
     + rewrite <- Hfs, Ep, (dstep_chtimes (sw_fs sw) (sw_sv sw) cs H Hp). apply obs_sim_refl.
+  - (* Getwd *)
+    destruct Hc as (-> & I0 & bs & Hcw & Hlen).
+    apply (dworld_of_ro phl w vi sw Ha _ (getwd (w_fs w) (sv_view (sw_sv sw))) (k_getwd (sw_fs sw) (sw_sv sw))).
+    + apply (impl_ro w (CGetwd vi) _); [unfold wstep, on_view; rewrite Hv; reflexivity|exact I].
+    + apply spec_getwd.
+    + rewrite <- Hfs, (dstep_getwd (sw_fs sw) (sw_sv sw) bs (dh_os _ _ H) (dh_root _ _ H) I0 Hcw Hlen). apply obs_sim_refl.
   - (* Stat *)
     destruct Hc as (-> & cs & Ep & Hp).
     apply (dworld_of_ro phl w vi sw Ha _ (stat_gen SlStat (w_fs w) (sv_view (sw_sv sw)) p) (k_stat true (sw_fs sw) (sw_sv sw) p)).
